@@ -113,3 +113,11 @@ def rules(t):
     import rules.shared as _sh
     out.append(_sh.sent_record_rule(t, "C01.l"))
     return out
+
+_rules_c01_w5c = rules
+def rules(t):
+    import rules.wave5 as W5
+    out = _rules_c01_w5c(t)
+    out.append(W5.slice_scan_all(t, "C01.m"))
+    out.append(W5.ordered_flag(t, "C01.n"))
+    return out
